@@ -27,6 +27,8 @@ SOURCES = [((12, 13, 150), 16, (4, 4, -1), 2), ((17, 18, 40), 32, (8, 8, 16), 1)
            ((70, 66, 9), 2, (64, 64, 4), 1), ((8, 9, 150), 16, (4, 4, -1), 1, 1.001), ((17, 18, 40), 32, (16, 16, 4), 1, 0.125), ((8, 16, 300), 8, (4, 4, -1), 2), ((5, 6, 2100), 1, (4, 4, -1), 1)]
 # a source whose three axes have the value 0 strictly inside, on a block boundary (coordinate boxes then start or stop at 0)
 ZERO_SOURCE = ((12, 9, 40), 32, (4, 4, -1), 2, 4.0, 'zero')
+# descending line axes (and negative crossline numbers)
+DESC_SOURCE = ((10, 13, 40), 32, (8, 8, 16), 1, 4.0, 'desc')
 
 
 def make_dup_source(d, k, seed):
@@ -69,6 +71,8 @@ def make_source(d, k, spec, seed):
     zs = 8.0 + dz * np.arange(shape[2])
     if len(spec) > 5 and spec[5] == 'zero':
         il, xl, zs = -8 + 2 * np.arange(shape[0]), -12 + 3 * np.arange(shape[1]), -16.0 + dz * np.arange(shape[2])
+    if len(spec) > 5 and spec[5] == 'desc':
+        il, xl = 130 - 2 * np.arange(shape[0]), -7 - 3 * np.arange(shape[1])
     th = {}
     t = np.arange(shape[0] * shape[1]).reshape(shape[0], shape[1])
     for j, f in enumerate([segyio.TraceField.CDP_X, segyio.TraceField.CDP, segyio.TraceField.ShotPoint][:extra]):
@@ -235,7 +239,7 @@ def judge(run, S, mode, box, r, ev):
 def prepare(run):
     d = env.subdir('c10src')
     quick = run.tier == 'quick'
-    specs = (SOURCES[:7] if quick else SOURCES) + [ZERO_SOURCE]
+    specs = (SOURCES[:7] if quick else SOURCES) + [ZERO_SOURCE, DESC_SOURCE]
     S = []
     for k, spec in enumerate(specs + ['dup', 'irr']):
         mask = None
@@ -253,9 +257,10 @@ def prepare(run):
         F, meta, H = c03.parse(p)
         shape, rate, bs, extra = spec[:4]
         zero = len(spec) > 5 and spec[5] == 'zero'
+        desc = len(spec) > 5 and spec[5] == 'desc'
         dz_us = int(round(1000 * (spec[4] if len(spec) > 4 else 4.0)))
         S.append({'path': p, 'label': f'numpy{shape}r{rate}b{bs}h{extra}', 'F': fc.F, 'snap': _snapshot(p), 'data': raw[H['n_header_blocks'] * 4096:H['n_header_blocks'] * 4096 + H['data_blocks'] * 4096],
-                  'T': c03.truth(3, shape, fc.F['b'], rate, shape[0] * shape[1], (100, 2) if not zero else (-8, 2), (-7, 3) if not zero else (-12, 3),
+                  'T': c03.truth(3, shape, fc.F['b'], rate, shape[0] * shape[1], (-8, 2) if zero else (130, -2) if desc else (100, 2), (-12, 3) if zero else (-7, -3) if desc else (-7, 3),
                                  8 if not zero else -16, dz_us, source_format=20 if extra not in ('dup', 'irr') else 0), 'mask': mask,
                   **({'z0_us': -16000} if zero else {})})
     # a source that already uses the float64 sample-axis fields: a crop of the 1001 us source starting between whole milliseconds
